@@ -237,6 +237,11 @@ def read_template(unit):
                                 kv = parse_kv(t2[2:])
                                 it.loops[k] = {"kv": kv, "lines": []}
                                 cur = it.loops[k]["lines"]
+                            elif d2 == "editre":
+                                m = re.match(r"//@\s*editre\s+<<(.*?)>>\s*=>\s*<<(.*?)>>\s*(.*)$", s2)
+                                if not m:
+                                    raise Undecided(f"{rel}:{i+1}: bad editre directive")
+                                it.edits.append({"from": m.group(1), "to": m.group(2), "why": m.group(3), "line": i + 1, "re": True})
                             elif d2 in ("edit", "editall"):
                                 # //@ edit <<from>> => <<to>> [why: ...]     (editall: every occurrence, at least one)
                                 m = re.match(r"//@\s*edit(all)?\s+<<(.*?)>>\s*=>\s*<<(.*?)>>\s*(.*)$", s2)
@@ -474,8 +479,8 @@ def assemble(unit, canary=False, mutant=None, check_fp=True):
             reps.append((b0 + 1, b0 + 1, " " + ptxt + " ", dict(org_base, kind="prologue", line=it.prologue[0][0], tags=[])))
         for g in it.ghosts:
             gt = " ".join(strip_comment(t).strip() for _, t in g["lines"]).strip()
-            if not re.match(r"^(proof\s*\{|assert\b|broadcast use\b)", gt):
-                raise Undecided(f"{it.tpl}:{g['line']}: ghost insertion must be a proof block / assert / broadcast use")
+            if not re.match(r"^(proof\s*\{|assert\b|broadcast use\b|let ghost\b)", gt):
+                raise Undecided(f"{it.tpl}:{g['line']}: ghost insertion must be a proof block / assert / broadcast use / let ghost")
             anc = g["anchor"].encode()
             cnt = body.count(anc)
             if cnt != 1:
@@ -484,6 +489,13 @@ def assemble(unit, canary=False, mutant=None, check_fp=True):
             reps.append((st, st, " " + gt + " ", dict(org_base, kind="ghost", line=g["line"], tags=[t for _, l in g["lines"] for t in parse_tags(l)])))
         all_edits = list(it.edits)
         for e in all_edits:
+            if e.get("re"):
+                ms = list(re.finditer(e["from"].encode(), body, re.S))
+                if len(ms) != 1:
+                    raise Undecided(f"lost-anchor: {it.path}: edit pattern `{e['from']}` matches {len(ms)} times")
+                reps.append((b0 + ms[0].start(), b0 + ms[0].end(), e["to"], dict(org_base, kind="edit", line=e["line"], tags=[])))
+                A.edits.append({"item": it.id, "from": "regex " + e["from"], "to": e["to"], "why": e["why"], "occurrences": 1})
+                continue
             frm = e["from"].encode()
             cnt = body.count(frm)
             if e.get("all"):
